@@ -89,7 +89,7 @@ Definition gen_post (es' : list ent) (e : ent) (aold : file) (f : file) : Prop :
             end
   end /\
   exists c, f_cert f = Some c /\ c_subj c = g_subj c0 /\ c_vis c = g_vis c0 /\ c_blind c = g_blind c0 /\
-    c_expired c = false /\
+    c_expired c = negb (g_until_future c0) /\
     c_pub c = match f_key f with Some k => k_id k | None => match f_req aold with Some r => r | None => 0 end end /\
     match g_issuer c0 with
     | None => exists k, f_key f = Some k /\ k_typ k = g_salg c0 /\ c_signer c = k_id k /\ c_iss c = g_subj c0
@@ -367,7 +367,7 @@ Proof.
 Qed.
 
 Lemma gen_post_material es' e x f : gen_post es' e (import_file x) f ->
-  exists c, f_cert f = Some c /\ has_key_material f = true /\ c_expired c = false.
+  exists c, f_cert f = Some c /\ has_key_material f = true /\ c_expired c = negb (g_until_future (e_cfg e)).
 Proof.
   intros (_ & R & K & c & C1 & _ & _ & _ & C5 & _). exists c. split; [exact C1|]. split; [|exact C5].
   unfold has_key_material.
@@ -435,6 +435,8 @@ Proof.
     assert (key_material_missing f = false) as M1.
     { unfold key_material_missing, has_key_material in *. rewrite Cc. destruct (f_key f), (f_req f); auto; discriminate. }
     rewrite M1, Hh, A2, hview_eqb_refl, Cc, Cx. cbn [negb andb orb].
+    replace (s_expired s && negb (g_until_future (e_cfg e)) && g_until_future (e_cfg e)) with false
+      by (destruct (g_until_future (e_cfg e)); rewrite ?andb_false_r; reflexivity).
     rewrite !andb_false_r. cbn [orb].
     assert (Nat.ltb (mtime_of (Some f)) (e_cfg_mtime e') = false) as M2.
     { apply Nat.ltb_ge. cbn. rewrite Hm, A3. destruct (C e He). lia. }
